@@ -17,6 +17,26 @@ CLAIMS = {
    technique="static path tables decided by order abstraction (all total preorders) and interval abstraction over go/ssa path summaries",
    text="Min/Max/Clamp/Clamp01/Compare/Less/Abs are decided for every argument value at once by evaluating their path conditions under every total preorder of the compared values; Digits10 by turning its paths into magnitude intervals that must partition [0,2^64) decade by decade, with the widening-before-negation rule that fixes the type-minimum case; DigitsSign10, Sum, Product, Coal, Tern, TernCast, IsZero, Zero, ZeroOf, Ref, DerefZero, IsNil as path tables.",
    note="Not decided: wrapping/floating-point semantics of the operators themselves (language), NaN."),
+ "C15": dict(cat="other", sec="4 C15",
+   technique="static path tables over go/ssa: entry point + adapter + predicate checks, comparisons decided by order abstraction",
+   text="Each Sort* helper is shown to make exactly one call of sort.Sort (sort.Stable where stability is promised) on an adapter of its own slice whose Len/Swap/Less are checked (Less decided under every ordering of the two elements), with the net direction from the Reverse count; BinarySearch* return sort.Search over the whole length with a lower-bound predicate; Shuffle/ShuffleRand call rand.Shuffle resp. the Shuffle method of the supplied generator with a swap closure. With the documented contracts of package sort and math/rand that is the property.",
+   note="Not decided: that sort.Sort/Stable/Search and rand.Shuffle meet their contracts (trusted)."),
+ "C16": dict(cat="other", sec="4 C16",
+   technique="static path tables over go/ssa: opposite-ends and same-element rules for Queue, last-index rules for Stack",
+   text="Every path of every Queue/Stack method is matched against the wrapper table: Enqueue inserts once at one end, Dequeue/Peek read the opposite end with the same accessor, Dequeue removes exactly what it read, Stack acts on index len-1 of the slice as loaded on entry and truncates by exactly one, empty rows change nothing; Queue keeps no state outside the List. With C06 (List equals container/list) and append semantics this is FIFO/LIFO for every history.",
+   note="Depends on C06 for List. Language semantics of append/slicing trusted."),
+ "C17": dict(cat="other", sec="4 C17",
+   technique="static wrapper-protocol check over go/ssa paths and closures (sync.Once usage discipline)",
+   text="Each Do is shown to call sync.Once.Do exactly once on the receiver's own Once field, with a closure that calls the user function exactly once and stores every result field from that call; Do returns the fields loaded after once.Do returned; nobody else writes those fields. With sync.Once's contract these are jointly sufficient for exactly-once execution and shared, visible results under every schedule.",
+   note="Trusts the contract of sync.Once."),
+ "C18": dict(cat="other", sec="4 C18",
+   technique="static wrapper-protocol check over go/ssa paths: one-primitive-operation-per-path tables, receiver-write (data race) rule, hand-out flow rule",
+   text="Each AtomicValue method is exactly one atomic.Value operation per path with arguments/results mapped as specified (so a Load+Store swap or a shortcut path is refuted); no Pool/AtomicValue method stores to receiver-reachable memory (the data race of the pinned tree); Pool.Get hands out the wrapped pool's value or New()/zero and keeps no reference, Put is one wrapped Put.",
+   note="Register linearizability and the one-holder discipline are the contracts of atomic.Value and sync.Pool (trusted); the rules decide that the wrapper preserves them."),
+ "C19": dict(cat="other", sec="4 C19",
+   technique="static path summaries over select arms (go/ssa): transfer-iff-reported tables, comma-ok typestate, non-blocking/bounded loop shape",
+   text="Because exactly one select arm runs, a path through the send/receive arm is a transfer and one through the timer/Done/default arm is not; the check shows each helper returns the constant true / the received (value, ok) exactly on transfer paths and false / (zero,false) exactly on the others, never transfers twice, treats non-positive timeouts as unlimited, and that the queued receivers accumulate only on the comma-ok true edge inside a bounded loop over a select with default.",
+   note="Not decided: fairness between ready arms (either outcome allowed). Trusts Go's select and closed-channel semantics."),
 }
 
 checks, na = [], []
